@@ -55,7 +55,39 @@ def stat_method_std(x):  # ndarray.std has ddof=0 (a pandas object would use ddo
     return float(x.std())
 
 
+def stat_sample_std(x):  # undefined (NaN) for a one-sample segment: neither below nor above any bound
+    import warnings
+
+    with warnings.catch_warnings():
+        warnings.simplefilter("ignore")
+        return float(np.std(x, ddof=1))
+
+
+def stat_lag1_autocorr(x):  # 0 / 0 = NaN on a flat-lining stretch
+    import warnings
+
+    x = np.asarray(x, dtype=float)
+    d = x - x.mean()
+    with warnings.catch_warnings():
+        warnings.simplefilter("ignore")
+        with np.errstate(all="ignore"):
+            return float(np.sum(d[1:] * d[:-1]) / np.sum(d * d)) if len(x) > 1 else float("nan")
+
+
+def stat_roughness(x):  # order-aware: mean absolute first difference along the (only) axis of the 1-D values
+    return float(np.mean(np.abs(np.diff(x)))) if len(x) > 1 else 0.0
+
+
+def stat_iqr(x):  # sorting along the last axis
+    s_ = np.sort(x)
+    return float(s_[(3 * len(s_)) // 4] - s_[len(s_) // 4])
+
+
 CALLABLES = {
+    "sample_std": stat_sample_std,
+    "lag1_autocorr": stat_lag1_autocorr,
+    "roughness": stat_roughness,
+    "iqr": stat_iqr,
     "first": stat_first,
     "last": stat_last,
     "method_std": stat_method_std,
@@ -230,7 +262,7 @@ def detector_params(draw, det, p, max_msl=5, max_bw=6, allow_cov=True):
         lo = draw(st.one_of(st.sampled_from([-1.0, 0.0, -0.5]), st.floats(-5, 5, allow_nan=False)))
         hi = lo + draw(st.one_of(st.sampled_from([0.0, 1.0, 2.0]), st.floats(0, 6, allow_nan=False)))
         return {"change_detector": dict(cls=inner, **ip),
-                "stat": {"callable": draw(st.sampled_from(["np.mean", "np.median", "np.max", "range", "first", "last", "method_std"]))},
+                "stat": {"callable": draw(st.sampled_from(["np.mean", "np.median", "np.max", "range", "first", "last", "method_std", "sample_std", "roughness", "iqr"]))},
                 "stat_lower": lo, "stat_upper": hi}, n_min
     raise ValueError(det)
 
